@@ -625,8 +625,9 @@ def _with_fallback(ctx, laws, fallback):
         entrygen.law(ctx, *laws)
     except AnalysisError as e:
         del ctx.obs[n0:]
-        ctx.note(f"entry-point generator not interpretable ({e}); emission-skeleton rules used instead")
-        fallback(ctx)
+        from .common import run_fallback
+
+        run_fallback(ctx, fallback, e, "entry-point generator")
 
 
 def r2_one_name_three_roles(ctx, rule_filter=None):
